@@ -86,6 +86,30 @@ def check(ctx):
                     'temp file; package hash after the resource loop and before the descriptor is handled')
     rp = commits.r15_datafile_order(ctx)
     commits.r15_descriptor_after_loop(ctx)
+    # the rows counted are the rows written: the row counter sits downstream of the writer's generator, so what that generator yields
+    # is what is counted - on every path of its row loop a row is yielded exactly when write_row(row) was called for it outside any
+    # try statement (a handled failure of the write leaves the row out of the file)
+    run.rule('WRC', 'WRITTEN-IS-COUNTED: in FileDumper.rows_processor every path of the row loop yields the row iff it wrote it')
+    from sa.paths import Enumerator as _En9, path_nodes as _pn9
+    rpn = ctx.N(commits.rows_processor(ctx))
+    from sa.model import row_loops as _rl9
+    found9 = [(l_, v_) for l_, v_, s_ in _rl9(rpn, streams=[rpn.params[1]])]
+    if len(found9) != 1:
+        raise AnalysisError('FileDumper.rows_processor: the row loop over its resource was not found')
+    rloops, rv9 = [found9[0][0]], found9[0][1]
+    n9 = 0
+    for p_ in _En9(where=rpn.qualname).body_paths(rloops[0]):
+        n9 += 1
+        risky = any(it_.kind in ('handler', 'try_partial') for it_ in p_.items)
+        wrote = [c_ for it_ in p_.items if it_.kind == 'stmt' for c_ in ast.walk(it_.node) if isinstance(c_, ast.Call)
+                 and isinstance(c_.func, ast.Attribute) and c_.func.attr == 'write_row' and c_.args and pseudo(c_.args[0]) == rv9]
+        ys = [y_ for y_ in _pn9(p_) if isinstance(y_, ast.Yield)]
+        okw = (len(wrote) == 1 and not risky and len(ys) == 1 and pseudo(ys[0].value) == rv9) or (not wrote and not ys and not risky) \
+            or p_.term == 'raise'
+        run.check(okw, 'WRC', where(repo, rloops[0]), rpn.qualname, 'write_row(row); yield row',
+                  'a row is passed on (and counted) on a path on which it was not written to the file, or the other way round: '
+                  'count_of_rows no longer is the number of rows in the data file', path=p_.describe())
+    run.floor('WRC', n9, 1, 'paths of the writer loop')
     db = commits.dumper_base(ctx)
     fd = commits.file_dumper(ctx)
 
